@@ -361,6 +361,12 @@ def main():
         if n_sample < 3 and v["events"] >= 8 and v["files"] >= 2:
             n_sample += 1
             chk.sample({"files": proj["files"], "entry": proj["entry"], "events_judged": v["events"], "per_kind": v["per_kind"]})
+    for k_, (a_, b_) in kinds_ok.items():
+        if "callback-with-two-candidate-values/" in k_ and not k_.startswith("p2/"):
+            chk.count("events of a callback with two candidate values (both candidates run)", a_)
+            chk.count("events in which the " + ("first" if "/first-candidate" in k_ else "second") + " of two candidate callbacks runs", a_)
+        if "callback-keyword-argument/" in k_ and "non-alphabetical" in k_:
+            chk.count("events of a callback passed among keywords written in non-alphabetical order", a_)
     chk.extra["per_call_kind"] = {k: {"events": a, "failed": b} for k, (a, b) in sorted(kinds_ok.items())}
     chk.count("distinct call kinds exercised", len(kinds_ok))
     chk.count("distinct call kinds with every event satisfied", sum(1 for a, b in kinds_ok.values() if b == 0))
@@ -375,6 +381,10 @@ def main():
         chk.require("projects with entry mode method", 20 if not thorough else 400)
         chk.require("projects with entry mode unit_init", 40 if not thorough else 800)
         chk.require("loader get_callees/get_callers cross-checks", 300)
+        chk.require("events of a callback with two candidate values (both candidates run)", 120 if not thorough else 2000)
+        chk.require("events in which the first of two candidate callbacks runs", 50 if not thorough else 900)
+        chk.require("events in which the second of two candidate callbacks runs", 50 if not thorough else 900)
+        chk.require("events of a callback passed among keywords written in non-alphabetical order", 20 if not thorough else 400)
         chk.require("python: call events judged", 1200 if not thorough else 25000)
         chk.require("javascript: call events judged", 300 if not thorough else 5000)
     else:
